@@ -14,8 +14,8 @@ pub static DEF: PropDef = PropDef {
     level: "exploration",
     rule: "each case: one input (valid writer/reference output, truncated, 1-3 mutations, adversarial header catalogue entry — zero-length numerics, 9-byte numerics, 8-byte ids/sizes, all-ones sizes of every width on every element type, first byte 0x00 — random bytes, mid-document suffix) x a random configuration (8 tolerance subsets, buffered-master subset, capacity in {default,0,1,2,7,8,15,16,17,64,len-1,len,len+1}, size limit in {5,100,4096,1 MiB}, EOF closing on/off) x a scripted source (random short reads, poisoned buffer tails) x a random interleaving of next()/try_recover(). Every API call runs under catch_unwind with a logical step budget (hook H1) and a source read budget; item count must stay <= 2*len+2*depth+16; after the first None with the source exhausted 8 further calls must return None; total steps must stay within 256*(len+items+64). Then the same parse is repeated with an I/O error injected at a read index (every index for inputs <= 64 bytes in thorough): the first error seen must be ReadError carrying the injected kind and message, and the Ok items before it a prefix of the fault-free run. Four fixed probes per run parse, in a child process on a thread with a 256 KiB stack, very long runs (20 000 quick / 100 000 thorough) of sibling buffered masters (known and unknown size) and deep nestings (4 000 / 20 000 levels) of a self-nesting master (unbuffered, and inside a buffered root): input-controlled recursion shows up as a crash of the child. distinct = (input-kind class, first-error kind, config class, API-sequence class); non-trivial iff the input is not a plain valid document or the config is non-default.",
     assumptions: &["the default 4 GB size limit is only used with valid documents (a legitimate multi-GB allocation per worker would exhaust the machine); C17 covers the default limit with curated sizes", "`no hang` is decided as bounded logical progress (hook H1 ticks + source read budget); a pure-CPU loop without a tick would only trip the wall-clock watchdog (inconclusive)"],
-    cases_quick: 20_000,
-    cases_thorough: 1_000_000,
+    cases_quick: 400_000,
+    cases_thorough: 5_000_000,
     floors: &[("api_calls", 200_000), ("distinct_nontrivial", 300), ("fault_runs", 5_000), ("catalogue_headers_reached", 500), ("try_recover_calls", 5_000), ("fused_checks", 5_000), ("long_run_probes", 4)],
     exhaustive_note: Some("I/O-error injection at every read index for inputs of <= 64 bytes (thorough)"),
     run,
